@@ -73,6 +73,8 @@ var selectorTable = map[[2]string]repl{
 	{"time", "Since"}: {"simclock", "Since"},
 	{"time", "Until"}: {"simclock", "Until"},
 	{"time", "Sleep"}: {"simclock", "Sleep"},
+	{"time", "AfterFunc"}: {"simclock", "AfterFunc"},
+	{"time", "Timer"}:     {"simclock", "Timer"},
 
 	{"os/exec", "Command"}:        {"simexec", "Command"},
 	{"os/exec", "CommandContext"}: {"simexec", "CommandContext"},
